@@ -79,6 +79,19 @@ let () =
       (match sprintf1 (bytes_of_hex f) (parse_info arg) with
        | Some t -> Printf.printf "%s\t%s\n" id (hex_of_bytes t)
        | None -> Printf.printf "%s\t?\n" id)
+    | "C" :: id :: opts :: _ ->
+      (* opts: id:cdn:hosthex:port,...  ->  the table NewClient builds, as id=addrhex,... (ascending ids) *)
+      let os = if opts = "-" then [] else List.map (fun o ->
+          match String.split_on_char ':' o with
+          | [i; c; h; p] -> { o_id = z_of_string i; o_cdn = (c = "1"); o_host = bytes_of_hex h; o_port = z_of_string p }
+          | _ -> failwith "bad dc option") (String.split_on_char ',' opts) in
+      let t = config_table os in
+      let ids = List.sort_uniq compare (List.map (fun o -> int_of_string (string_of_z o.o_id)) os) in
+      let parts = List.filter_map (fun i ->
+          match dc_lookup (z_of_int i) t with
+          | Some a -> Some (string_of_int i ^ "=" ^ hex_of_bytes a)
+          | None -> Some (string_of_int i ^ "=-")) ids in
+      Printf.printf "%s\t%s\n" id (if parts = [] then "-" else String.concat "," parts)
     | "M" :: id :: dcs :: code :: text :: _ ->
       let tbl = List.rev !table in
       (match handle tbl !cat (parse_dcs dcs) (z_of_string code) (bytes_of_hex text) with
